@@ -296,6 +296,8 @@ FIRE = [
     ("iqpe-feedback-overwrites", "C20", [(IQPEF, "                self.phase += 1/2**(self.bitplace)", "                self.phase = 1/2**(self.bitplace)")], "K9.iqpe-feedback"),
     ("qpe-vector-reference-ignores-ordering", "C20", [(QPEF2, "                self.reference_circuit = vector_to_circuit(get_mapped_vector(self.ref_state, self.qubit_mapping, self.up_then_down))", "                self.reference_circuit = vector_to_circuit(get_mapped_vector(self.ref_state, self.qubit_mapping))")], "K7.encoding-forwarding"),
     ("reindex-accepts-duplicates", "C11", [(CIRC, " or len(set(new_indices)) != len(new_indices):\n            raise ValueError(\"The new indices must be distinct non-negative integers\")", ":\n            raise ValueError(\"The new indices must be distinct non-negative integers\")")], "K6.gate-validation"),
+    ("qpe-register-not-reversed", "C20", [(QPEF2, "        self.qpe_qubit_list = list(reversed(range(qft_start, qft_start+self.n_qpe_qubits)))", "        self.qpe_qubit_list = list(range(qft_start, qft_start+self.n_qpe_qubits))")], "K9.qpe-register"),
+    ("qpe-powers-descending", "C20", [(QPEF2, "            self.circuit += self.unitary.build_circuit(2**i, control=qubit)", "            self.circuit += self.unitary.build_circuit(2**(self.n_qpe_qubits-1-i), control=qubit)")], "K9.qpe-register"),
 ]
 
 SILENT = [
@@ -400,4 +402,5 @@ SILENT = [
     ("trim-relabels-sorted-without-list", "C14", [(CIRC, "        mapping = {ind: i for i, ind in enumerate(sorted(list(qubits_in_use)))}", "        mapping = {ind: i for i, ind in enumerate(sorted(qubits_in_use))}")]),
     ("dmet-uhf-split-closed-form", "C15", [(DMETORBF, "        elec_diff = self.mol_full.spin\n        elec_paired = self.number_active_electrons-elec_diff\n        orbital_paired = elec_paired // 2", "        elec_diff = self.mol_full.spin\n        orbital_paired = (self.number_active_electrons - elec_diff) // 2")]),
     ("iqpe-feedback-halving", "C20", [(IQPEF, "                self.phase += 1/2**(self.bitplace)", "                self.phase += 0.5**(self.bitplace)")]),
+    ("qpe-powers-by-shift", "C20", [(QPEF2, "            self.circuit += self.unitary.build_circuit(2**i, control=qubit)", "            self.circuit += self.unitary.build_circuit(1 << i, control=qubit)")]),
 ]
